@@ -84,6 +84,13 @@ def tol_mesh_snapping(ctx, prog, R):
                 x = sp.log(tr.sym("OPT[tol_mesh]")) / sp.log(tr.sym("OPT[poll_mesh_multiplier]"))
                 ok = is_zero(lvl - sp.ceiling(x))
                 why = f"level {lvl} is not ceil(log(tol_mesh) / log(multiplier))"
+                if not ok and isinstance(lvl, sp.ceiling):
+                    # ceil(x - c) with a literal c >= 0 (a guard against round-off in the quotient) is never above ceil(x):
+                    # the snapped tolerance is then at most the smallest mesh level >= tol, and "mesh < snapped" still
+                    # implies "mesh < tol"
+                    d_ = sp.simplify(lvl.args[0] - x)
+                    if d_.is_number and d_ <= 0:
+                        ok = True
             except Untranslatable as e:
                 why = f"level uses a construct the term translator does not know ({e})"
         ctx.check(ok, fn, s, "OS[tol_mesh] = multiplier ** ceil(log(tol_mesh)/log(multiplier)): the smallest mesh level >= the user's tolerance",
